@@ -79,7 +79,11 @@ def build_obj(o):
 def build_ws(w):
     out = {}
     for k, e in w:
-        out[k] = build_obj(e["obj"]) if e["kind"] == "data" else {kk: pv_to_py(v) for kk, v in e["kv"]}
+        if e["kind"] == "raw":
+            # neither a data object nor a dictionary: a bare array, a list or a number
+            out[k] = {"array": np.arange(5.0), "list": [1.0, 2.0], "number": 3.5}[e.get("py", "array")]
+        else:
+            out[k] = build_obj(e["obj"]) if e["kind"] == "data" else {kk: pv_to_py(v) for kk, v in e["kv"]}
     return out
 
 
